@@ -145,6 +145,13 @@ func c20Exec(j c20Job, e *c20Encoders) (digest string) {
 	return hex.EncodeToString(h.Sum(nil))
 }
 
+// c20UntaggedObject is a managed object type nobody registered a tag for.
+type c20UntaggedObject struct {
+	Data []byte `ttlv:"0x540131"`
+}
+
+func (*c20UntaggedObject) ObjectType() kmip.ObjectType { return kmip.ObjectType(0x8C7F0001) }
+
 // c20Failing makes calls that fail: the message gets an item the encoders refuse half-way through the
 // document (a negative interval), and truncated documents are decoded. Every failure is recovered, as a
 // server's or a caller's recover would; the digest says which calls failed.
@@ -173,6 +180,25 @@ func c20Failing(m *kmip.RequestMessage, raw []byte, e *c20Encoders) string {
 			out += enc + "=ok;"
 		}()
 	}
+	// an object whose Go type has no tag cannot be encoded: not the first time, and not the second time either
+	// (whatever an earlier message with a proper object left behind)
+	okObj := &payloads.GetResponsePayload{ObjectType: kmip.ObjectTypeSecretData, UniqueIdentifier: "id", Object: &kmip.SecretData{SecretDataType: kmip.SecretDataTypePassword,
+		KeyBlock: kmip.KeyBlock{KeyFormatType: kmip.KeyFormatTypeOpaque}}}
+	e.encode("binary", okObj)
+	bad := &payloads.GetResponsePayload{ObjectType: kmip.ObjectTypeSecretData, UniqueIdentifier: "id", Object: &c20UntaggedObject{}}
+	out += "untagged-object="
+	for i := 0; i < 2; i++ {
+		func() {
+			defer func() {
+				if recover() != nil {
+					out += "panic,"
+				}
+			}()
+			e.encode("binary", bad)
+			out += "ok,"
+		}()
+	}
+	out += ";"
 	if len(raw) > 16 {
 		out += fmt.Sprintf("binary-decode-failed=%v;", ttlv.UnmarshalTTLV(raw[:len(raw)-5], &kmip.RequestMessage{}) != nil)
 	}
@@ -278,6 +304,9 @@ func c20Run(p c20Plan, dir string) (sig string, err error) {
 		if strings.HasPrefix(d, "binary-differs-from-reference:") {
 			return "result-depends-on-history", fmt.Errorf("job %d (%s): the sequential child (jobs in list order, one process) encodes %s, the reference encoder predicts %s for this value alone", i, p.Jobs[i].Kind, d[30:], p.Jobs[i].Expect)
 		}
+		if strings.HasPrefix(d, "failing:") && !strings.Contains(d, "untagged-object=panic,panic,;") {
+			return "result-depends-on-history", fmt.Errorf("job %d (failing calls): encoding an object whose type has no tag must fail every time it is tried, the sequential child reports %s", i, d)
+		}
 		if strings.HasPrefix(d, "text-round-trip-broken:") {
 			return "result-depends-on-history", fmt.Errorf("job %d (%s %s): in the sequential child (jobs in list order, one process) the XML/JSON document of this value no longer decodes to the same binary encoding: %s", i, p.Jobs[i].Kind, p.Jobs[i].Hex, d[23:])
 		}
@@ -335,11 +364,23 @@ func TestC20History(t *testing.T) {
 		versions := map[string]bool{}
 		kinds := map[string]bool{}
 		failing := 0
+		// half of the lists concentrate on one or two operations (those carrying managed objects first): many messages
+		// then share their cached per-type plans while their dynamic content (object types, attribute values) differs
+		mo := gen.MsgOpts{Alphabet: "xml", TextSafe: true, MaxItems: 2}
+		focus := "none"
+		if rapid.Bool().Draw(rt, "focus") {
+			pool := []kmip.Operation{kmip.OperationRegister, kmip.OperationGet, kmip.OperationImport, kmip.OperationExport, kmip.OperationRegister, kmip.OperationGet}
+			for _, e := range gen.Ops {
+				pool = append(pool, e.Op)
+			}
+			mo.OnlyOps = rapid.SliceOfN(rapid.SampledFrom(pool), 1, 2).Draw(rt, "focusops")
+			focus = fmt.Sprint(mo.OnlyOps)
+		}
 		for i := 0; i < n; i++ {
 			var j c20Job
 			switch rapid.IntRange(0, 5).Draw(rt, "kind") {
 			case 5:
-				m := gen.Request(rt, gen.MsgOpts{Alphabet: "xml", TextSafe: true, MaxItems: 2})
+				m := gen.Request(rt, mo)
 				w := &refwalk.Walker{}
 				tr, err := w.Message(m)
 				if err != nil {
@@ -363,7 +404,7 @@ func TestC20History(t *testing.T) {
 					j = c20Job{Kind: "value", Hex: hex.EncodeToString(ttlvref.Write(gen.Tree(rt, to)))}
 				}
 			case 1, 2:
-				m := gen.Request(rt, gen.MsgOpts{Alphabet: "xml", TextSafe: true, MaxItems: 2})
+				m := gen.Request(rt, mo)
 				foreignVersion(rt, &m.Header.ProtocolVersion)
 				w := &refwalk.Walker{}
 				tr, err := w.Message(m)
@@ -373,7 +414,7 @@ func TestC20History(t *testing.T) {
 				j = c20Job{Kind: "request", Hex: hex.EncodeToString(ttlvref.Write(tr)), Expect: hex.EncodeToString(ttlvref.Write(tr))}
 				versions[m.Header.ProtocolVersion.String()] = true
 			default:
-				m := gen.Response(rt, gen.MsgOpts{Alphabet: "xml", TextSafe: true, MaxItems: 2})
+				m := gen.Response(rt, mo)
 				foreignVersion(rt, &m.Header.ProtocolVersion)
 				w := &refwalk.Walker{}
 				tr, err := w.Message(m)
@@ -390,7 +431,7 @@ func TestC20History(t *testing.T) {
 		p.Prefix = rapid.SliceOfN(rapid.IntRange(0, n-1), 0, 4).Draw(rt, "prefix")
 		key, _ := json.Marshal(p)
 		nt := len(versions) >= 2 || len(kinds) >= 2
-		rec.Case(nt, key, fmt.Sprintf("goroutines=%d", p.Goroutines), fmt.Sprintf("versions=%d", len(versions)), fmt.Sprintf("failing-calls=%v", failing > 0))
+		rec.Case(nt, key, fmt.Sprintf("goroutines=%d", p.Goroutines), fmt.Sprintf("versions=%d", len(versions)), fmt.Sprintf("failing-calls=%v", failing > 0), fmt.Sprintf("focused=%v", focus != "none"))
 		rec.Eval(3*n - 1)
 		if nt && rec.WantSample() && len(key) < 3000 {
 			rec.Sample(p)
